@@ -63,6 +63,88 @@ theorem C16_budget (P : Params) (hiv : IntervalOK P) (s : Sys) (j : Nat) (jr : J
       | num q => simp [baseResult, h]
   simp only [hbase, hres]
 
+/-- `RungValid` includes `interval_steps ≠ 0` -/
+theorem IntervalOK_of_RungValid {P : Params} (hv : RungValid P) : IntervalOK P := by
+  cases hk : P.kind with
+  | median ms mc iv eps => simp only [RungValid, hk] at hv; simp only [IntervalOK, hk]; omega
+  | sha ms rf mesr mc mfc eps => simp [IntervalOK, hk]
+  | idle => simp [IntervalOK, hk]
+  | const st => simp [IntervalOK, hk]
+
+/-- **C16 (no exception under the protocol)** — successive halving and median stopping, parameters in range,
+every schedule, every running job, every objective: `record` then `stopped()` returns a Boolean (at a decision
+budget the job's own objective is among the competitors, so `a[-k]` / the median are defined). -/
+theorem C16_no_exception (P : Params) (hv : RungValid P) (es : List Ev) (j : Nat) (jr : JobRec) (o : Obj)
+    (hj : (reach P es)[j]? = some jr) (hl : jr.halted = false) :
+    ∃ b, (protoStep P (reach P es) (.step j o)).2 = some (.ok b) := by
+  have hlive := (reach_inv hv es j jr hj).1 hl
+  have hlen : jr.js.budgets.length = jr.js.objs.length := by rw [hlive.budgets]; simp
+  cases o with
+  | fail t => exact ⟨true, C16_budget P (IntervalOK_of_RungValid hv) _ j jr _ hj hl (Or.inl ⟨t, rfl⟩)⟩
+  | num q =>
+    by_cases hmax : P.maxSteps ≤ jr.js.objs.length + 1
+    · exact ⟨true, C16_budget P (IntervalOK_of_RungValid hv) _ j jr _ hj hl (Or.inr (by rw [hlen]; exact hmax))⟩
+    · rw [protoStep_eq P _ j jr _ hj hl]
+      obtain ⟨jr2, hrung, _, hown, hstep⟩ := jobStep_num hv (reach P es) j jr q hlive (by omega)
+      rw [hstep]
+      simp only [Option.some.injEq]
+      have hlt : j < (reach P es).length := getElem?_lt hj
+      have hmem : decTest P jr.js.rung (jr.js.objs.length + 1) = true →
+          q ∈ competitors ((reach P es).set j jr2) jr.js.rung := fun ht =>
+        mem_competitors.2 ⟨j, jr2, List.getElem?_set_self hlt, hown ht⟩
+      cases hk : P.kind with
+      | idle => simp [RungValid, hk] at hv
+      | const st => simp [RungValid, hk] at hv
+      | sha ms rf mesr mc mfc eps =>
+        simp only [RungValid, hk] at hv
+        simp only [decide', hk, shaDecide, hrung]
+        by_cases h1 : ((jr.js.objs.length + 1 : Nat) : Int) < shaHB ms rf mesr jr.js.rung
+        · exact ⟨false, by simp only [h1, if_true]⟩
+        · have ht : decTest P jr.js.rung (jr.js.objs.length + 1) = true := by
+            simp only [decTest, hk, decide_eq_true_eq]; omega
+          simp only [h1, if_false]
+          split
+          · exact ⟨false, rfl⟩
+          · split
+            · exact ⟨true, rfl⟩
+            · have hrf : rf ≠ 0 := by omega
+              simp only [hrf, if_false]
+              set comp := sortAsc (competitors ((reach P es).set j jr2) jr.js.rung) with hcomp_def
+              have hlen' : 1 ≤ comp.length := by
+                rw [hcomp_def, length_sortAsc]
+                exact List.length_pos_of_mem (hmem ht)
+              have hk1 : 1 ≤ (if comp.length / rf = 0 then 1 else comp.length / rf) := by
+                split
+                · exact Nat.le_refl 1
+                · exact Nat.pos_of_ne_zero ‹_›
+              have hk2 : (if comp.length / rf = 0 then 1 else comp.length / rf) ≤ comp.length := by
+                split
+                · exact hlen'
+                · exact Nat.div_le_self _ _
+              obtain ⟨top, htop⟩ := negIdx_isSome hk1 hk2
+              rw [htop]
+              simp only
+              split
+              · exact ⟨false, rfl⟩
+              · exact ⟨true, rfl⟩
+      | median ms mc iv eps =>
+        simp only [RungValid, hk] at hv
+        simp only [decide', hk, medianDecide, Bool.false_eq_true, if_false, hrung]
+        rcases hm : medianIsHalting ms iv (jr.js.objs.length + 1) with _ | _ | _
+        · exfalso
+          have hiv : iv ≠ 0 := by omega
+          unfold medianIsHalting at hm
+          by_cases h : jr.js.objs.length + 1 < ms <;> simp [h, hiv] at hm
+        · exact ⟨false, rfl⟩
+        · simp only
+          split
+          · exact ⟨false, rfl⟩
+          · split
+            · exact ⟨true, rfl⟩
+            · split
+              · exact ⟨false, rfl⟩
+              · exact ⟨true, rfl⟩
+
 /-! ## evaluations are compared at the same budget -/
 
 /-- **C16 (alignment — the key invariant)** — successive halving and median stopping, every schedule:
